@@ -35,6 +35,9 @@ def is_alpha_of(t, pidx):
         return True
     if t[0] == 'field' and t[2] == '3' and t[1][0] == 'call' and t[1][1] == BL + 'as_rgba_i32' and is_param(t[1][2][0], pidx):
         return True
+    # as_rgba_i32 returning an array instead of a tuple (its component order is checked once, W2 as_rgba_i32)
+    if t[0] == 'index' and q.const_val(t[2]) == 3 and t[1][0] == 'call' and t[1][1] == BL + 'as_rgba_i32' and is_param(t[1][2][0], pidx):
+        return True
     if t[0] == 'index' and q.const_val(t[2]) == 3 and field_path(t[1]) == (('param', pidx, t[1][1][2] if t[1][0] == 'field' else None), ['0']):
         return True
     if t[0] == 'index' and q.const_val(t[2]) == 3 and t[1][0] == 'field' and t[1][2] == '0' and is_param(t[1][1], pidx):
@@ -46,7 +49,19 @@ def is_channel_of(t, pidx, i):
     t = strip_casts(t)
     if t[0] == 'field' and t[2] == str(i) and t[1][0] == 'call' and t[1][1] == BL + 'as_rgba_i32' and is_param(t[1][2][0], pidx):
         return True
+    if t[0] == 'index' and q.const_val(t[2]) == i and t[1][0] == 'call' and t[1][1] == BL + 'as_rgba_i32' and is_param(t[1][2][0], pidx):
+        return True
     if t[0] == 'index' and q.const_val(t[2]) == i and t[1][0] == 'field' and t[1][2] == '0' and is_param(t[1][1], pidx):
+        return True
+    return False
+
+
+def is_channel_plain(t, i):
+    """channel i of parameter 1 (an Rgba<u8>), widened"""
+    t = strip_casts(t)
+    if t[0] == 'call' and t[1] == INDEX and is_param(t[2][0], 1) and q.const_val(t[2][1]) == i:
+        return True
+    if t[0] == 'index' and q.const_val(t[2]) == i and t[1][0] == 'field' and t[1][2] == '0' and is_param(t[1][1], 1):
         return True
     return False
 
@@ -99,6 +114,13 @@ def run(ctx):
         bc_ok = al is not None and is_param(t[2][0], 1) and is_param(t[2][2], 3) and is_alpha_of(al, 2) and len(alts(t)) == 1
         ctx.inst('W2', 'blend_channel', bc_ok, 'blend_channel = %s...; must be normal(backdrop, Rgba([f.., f.., f.., src alpha]), opacity) for any f'
                  % show(t)[:90], bc.span, key=bc.name + '|W2')
+    # as_rgba_i32(c) = (c[0], c[1], c[2], c[3]) widened, as a tuple or an array: the rules above read `.3` / `[3]` of it as the alpha
+    ar = fx.body(BL + 'as_rgba_i32')
+    if ar is not None:
+        rt = res(ar).ret()
+        comps = list(rt[1]) if rt[0] in ('tuple', 'array') else []
+        okc = len(comps) == 4 and all(is_channel_plain(comps[i], i) for i in range(4))
+        ctx.inst('W2', 'as_rgba_i32', okc, 'as_rgba_i32 = %s; must be the four channels of its argument in order' % show(rt)[:100], ar.span, key=ar.name + '|W2')
     for m, f in sorted(baselines.items()):
         fb = ctx.anchor(f)
         if fb is None:
